@@ -561,6 +561,23 @@ def _unique(ctx):
            'len(%s)' % alpha[0] in dt.values(),
            'encoder and decoder share default alphabet and base: %s / %s'
            % (dt, df), construct='base-n defaults')
+    # exact integer arithmetic: ids use 77 bits, a float quotient is wrong
+    # above 2**53 (and the module divides "truly": from __future__ import
+    # division)
+    for bfunc in (tb, fb):
+        inexact = [sub for sub in K.walk_no_nested(bfunc.node)
+                   if isinstance(sub, ast.BinOp) and
+                   isinstance(sub.op, ast.Div)] + [
+                       sub for sub in K.walk_no_nested(bfunc.node)
+                       if isinstance(sub, ast.AugAssign) and
+                       isinstance(sub.op, ast.Div)] + [
+                           sub for sub in K.walk_no_nested(bfunc.node)
+                           if isinstance(sub, ast.Call) and
+                           K.callee_text(sub) in ('float', 'math.floor',
+                                                  'math.log', 'round')]
+        ctx.ob('C15.2', bfunc, inexact[0] if inexact else None, not inexact,
+               '%s works in integers only (no true division, no float)'
+               % bfunc.name, construct='%s exact arithmetic' % bfunc.name)
     # the digit written for a value the encoder special-cases is that
     # value's own digit: `if num == 0: return alphabet[0]` (any other index
     # collides with the single-digit encoding of that index)
@@ -847,6 +864,17 @@ def _payload(ctx):
            '.encode()' in src,
            'objects that are not strings/bytes are serialised with '
            'json.dumps', construct='_payload serialiser')
+    # the decoding may live in a private helper of the module that the
+    # reader calls: judged where json.loads is
+    if not any(K.callee_text(c) == 'json.loads' for c in K.calls(get.node)):
+        for call in K.calls(get.node):
+            if isinstance(call.func, ast.Name):
+                helper = mod.functions.get(call.func.id)
+                if helper is not None and any(
+                        K.callee_text(c) == 'json.loads'
+                        for c in K.calls(helper.node)):
+                    get = helper
+                    break
     graph = ctx.cfg(get)
     loads = [n for n, c in K.nodes_calling(
         graph, lambda c: K.callee_text(c) == 'json.loads')]
@@ -928,6 +956,50 @@ def _pairs(func, reader):
     return out
 
 
+def dn_order(ctx, rule='C15.5'):
+    """The id of a cell allocation and its DN name the tenant path in
+    opposite orders: encoder and decoder reverse alike and use the same
+    separators (the reservation API compares the ids the listing decodes
+    with the id it builds from the request - shared with C19.3)."""
+    mod = ctx.index.module(LDAP)
+    # the allocation id <-> DN mapping: tenants are nested most-significant
+    # last in the DN, so both directions reverse, and both use ':' and '/'
+    enc_dn = mod.functions.get('_allocation_dn_parts')
+    dec_dn = mod.functions.get('_dn2cellalloc_id')
+    ctx.require(enc_dn is not None and dec_dn is not None,
+                '_allocation_dn_parts / _dn2cellalloc_id', rule=rule)
+
+    def reversals(func):
+        count = 0
+        for sub in K.walk_no_nested(func.node):
+            if isinstance(sub, ast.Call) and (
+                    K.callee_text(sub) == 'reversed' or
+                    K.is_meth(sub, 'reverse')):
+                count += 1
+            if isinstance(sub, ast.Subscript) and isinstance(
+                    sub.slice, ast.Slice) and sub.slice.step is not None \
+                    and N.txt(sub.slice.step) == '-1':
+                count += 1
+        return count
+
+    def seps(func, meth):
+        return sorted(set(
+            N.txt(K.recv(sub) if meth == 'join' else sub.args[0]).strip(
+                "'")
+            for sub in K.walk_no_nested(func.node)
+            if isinstance(sub, ast.Call) and K.is_meth(sub, meth) and
+            (meth == 'join' or sub.args) and
+            isinstance(K.recv(sub) if meth == 'join' else sub.args[0],
+                       ast.Constant)))
+    ctx.ob(rule, dec_dn, None,
+           reversals(enc_dn) % 2 == reversals(dec_dn) % 2 and
+           ':' in seps(enc_dn, 'split') and ':' in seps(dec_dn, 'join'),
+           'tenant path order: the DN encoder reverses %d time(s), the '
+           'decoder %d time(s); both use the \':\' separator' % (
+               reversals(enc_dn), reversals(dec_dn)),
+           construct='allocation id <-> DN tenant order')
+
+
 def _ldap(ctx):
     index = ctx.index
     mod = index.module(LDAP)
@@ -982,42 +1054,7 @@ def _ldap(ctx):
                        construct='%s empty-list clearing' % cls.name)
     ctx.require(n_tables >= 10, 'LDAP schema tables (found %d)' % n_tables,
         rule='C15.5')
-    # the allocation id <-> DN mapping: tenants are nested most-significant
-    # last in the DN, so both directions reverse, and both use ':' and '/'
-    enc_dn = mod.functions.get('_allocation_dn_parts')
-    dec_dn = mod.functions.get('_dn2cellalloc_id')
-    ctx.require(enc_dn is not None and dec_dn is not None,
-                '_allocation_dn_parts / _dn2cellalloc_id', rule='C15.5')
-
-    def reversals(func):
-        count = 0
-        for sub in K.walk_no_nested(func.node):
-            if isinstance(sub, ast.Call) and (
-                    K.callee_text(sub) == 'reversed' or
-                    K.is_meth(sub, 'reverse')):
-                count += 1
-            if isinstance(sub, ast.Subscript) and isinstance(
-                    sub.slice, ast.Slice) and sub.slice.step is not None \
-                    and N.txt(sub.slice.step) == '-1':
-                count += 1
-        return count
-
-    def seps(func, meth):
-        return sorted(set(
-            N.txt(K.recv(sub) if meth == 'join' else sub.args[0]).strip(
-                "'")
-            for sub in K.walk_no_nested(func.node)
-            if isinstance(sub, ast.Call) and K.is_meth(sub, meth) and
-            (meth == 'join' or sub.args) and
-            isinstance(K.recv(sub) if meth == 'join' else sub.args[0],
-                       ast.Constant)))
-    ctx.ob('C15.5', dec_dn, None,
-           reversals(enc_dn) % 2 == reversals(dec_dn) % 2 and
-           ':' in seps(enc_dn, 'split') and ':' in seps(dec_dn, 'join'),
-           'tenant path order: the DN encoder reverses %d time(s), the '
-           'decoder %d time(s); both use the \':\' separator' % (
-               reversals(enc_dn), reversals(dec_dn)),
-           construct='allocation id <-> DN tenant order')
+    dn_order(ctx)
     conv = {}
     for name in ('_entry_2_dict', '_dict_2_entry'):
         func = mod.functions.get(name)
